@@ -22,6 +22,10 @@ ASSUMPTIONS = [
 _PLUGIN_ERR = re.compile(r"Plugin id '([A-Za-z0-9]+)' had a critical failure during the '([a-z_]+)' action")
 
 
+# narrow and deep: sibling / nested ordered sub-lists with and without a mis-indented item
+SIGMA_OL5 = ["1. a", "2. a", "   1. a", "   2. a", "    2. a"]
+
+
 def space(tier):
     rules = configs.all_rules()
     singles = [f"only:{r}" for r in rules]
@@ -45,6 +49,7 @@ def space(tier):
             spaces.ConfigDocSpace(spaces.ProductSpace("B(mli,3)", spaces.SIGMA_MLI, 3), ["default", "all"]),
             spaces.ConfigDocSpace(spaces.inline_wide_space(2, (0,))[0], ["default", "all"]),
             spaces.ConfigDocSpace(spaces.mix_space(tier), ["default", "all"]),
+            spaces.ConfigDocSpace(spaces.ProductSpace("B(ol5,6)", SIGMA_OL5, 6, minlen=4), ["default"]),
         ]
     return spaces.UnionSpace(f"scan-{tier}", parts)
 
